@@ -24,7 +24,33 @@ type (
 	Error   = net.Error
 	OpError = net.OpError
 	Conn    = net.Conn
+	// further names of package net that an edit of the instrumented files may plausibly start to
+	// use: they need no simulation (pure data types and helpers), so they are the real ones
+	Buffers             = net.Buffers
+	TCPAddr             = net.TCPAddr
+	UDPAddr             = net.UDPAddr
+	AddrError           = net.AddrError
+	DNSError            = net.DNSError
+	ParseError          = net.ParseError
+	UnknownNetworkError = net.UnknownNetworkError
+	InvalidAddrError    = net.InvalidAddrError
+	HardwareAddr        = net.HardwareAddr
+	IPMask              = net.IPMask
+	Flags               = net.Flags
 )
+
+var (
+	ErrClosed = net.ErrClosed
+	IPv4len   = net.IPv4len
+	IPv6len   = net.IPv6len
+	IPv4zero  = net.IPv4zero
+	IPv6zero  = net.IPv6zero
+)
+
+func IPv4(a, b, c, d byte) net.IP                    { return net.IPv4(a, b, c, d) }
+func ParseCIDR(s string) (net.IP, *net.IPNet, error) { return net.ParseCIDR(s) }
+func CIDRMask(ones, bits int) net.IPMask             { return net.CIDRMask(ones, bits) }
+func IPv4Mask(a, b, c, d byte) net.IPMask            { return net.IPv4Mask(a, b, c, d) }
 
 func SplitHostPort(hp string) (string, string, error) { return net.SplitHostPort(hp) }
 func JoinHostPort(h, p string) string                 { return net.JoinHostPort(h, p) }
